@@ -23,7 +23,7 @@ if (negb ((Z.land ix__1 bit) =? 0)) then (
 Exn SafetyViolation) else (
 Ok tt) end.
 
-Fixpoint gen_qcow_check_unknown_features_loop1 (fuel__ : nat) (i : Z) (n__ : Z) (hdr : bytes) (version : option Z) (ver : option Z) (i_features : bytes) (max_byte : Z) {struct fuel__} : res (unit) :=
+Fixpoint gen_qcow_check_unknown_features_loop1 (fuel__ : nat) (i : Z) (n__ : Z) (hdr : bytes) (i_features : bytes) (max_byte : Z) (ver : option Z) (version : option Z) {struct fuel__} : res (unit) :=
   match fuel__ with O => Ok tt | S k__ =>
 let byte_num := n__ - 1 - i in
 if (byte_num =? max_byte) then (
@@ -32,20 +32,20 @@ match (bidxZ i_features i) with Exn e__ => Exn e__ | Ok ix__1 =>
 if (negb ((Z.land ix__1 (Z.lnot allow_mask)) =? 0)) then (
 match (bidxZ i_features byte_num) with Exn e__ => Exn e__ | Ok ix__2 =>
 Exn SafetyViolation end) else (
-gen_qcow_check_unknown_features_loop1 k__ (i + 1) n__ hdr version ver i_features max_byte) end) else (
+gen_qcow_check_unknown_features_loop1 k__ (i + 1) n__ hdr i_features max_byte ver version) end) else (
 if (byte_num >? max_byte) then (
 let allow_mask := (0) in
 match (bidxZ i_features i) with Exn e__ => Exn e__ | Ok ix__3 =>
 if (negb ((Z.land ix__3 (Z.lnot allow_mask)) =? 0)) then (
 match (bidxZ i_features byte_num) with Exn e__ => Exn e__ | Ok ix__4 =>
 Exn SafetyViolation end) else (
-gen_qcow_check_unknown_features_loop1 k__ (i + 1) n__ hdr version ver i_features max_byte) end) else (
+gen_qcow_check_unknown_features_loop1 k__ (i + 1) n__ hdr i_features max_byte ver version) end) else (
 let allow_mask := (255) in
 match (bidxZ i_features i) with Exn e__ => Exn e__ | Ok ix__5 =>
 if (negb ((Z.land ix__5 (Z.lnot allow_mask)) =? 0)) then (
 match (bidxZ i_features byte_num) with Exn e__ => Exn e__ | Ok ix__6 =>
 Exn SafetyViolation end) else (
-gen_qcow_check_unknown_features_loop1 k__ (i + 1) n__ hdr version ver i_features max_byte) end)) end.
+gen_qcow_check_unknown_features_loop1 k__ (i + 1) n__ hdr i_features max_byte ver version) end)) end.
 Definition gen_qcow_check_unknown_features (hdr : bytes) (version : option Z) : res unit :=
 let ver := version in
 if (opt_eqb ver (2)) then (
@@ -54,11 +54,11 @@ if (negb (opt_eqb ver (3))) then (
 Exn SafetyViolation) else (
 let i_features := (zslice (Some (Z.of_N QCOW_I_FEATURES)) (Some ((Z.of_N QCOW_I_FEATURES) + (Z.of_N QCOW_I_FEATURES_LEN))) hdr) in
 let max_byte := ((Z.of_N QCOW_I_FEATURES_MAX_BIT) / (8)) in
-match gen_qcow_check_unknown_features_loop1 (Z.to_nat (Z.of_N QCOW_I_FEATURES_LEN)) 0 (Z.of_N QCOW_I_FEATURES_LEN) hdr version ver i_features max_byte with Exn e__ => Exn e__ | Ok _ =>
+match gen_qcow_check_unknown_features_loop1 (Z.to_nat (Z.of_N QCOW_I_FEATURES_LEN)) 0 (Z.of_N QCOW_I_FEATURES_LEN) hdr i_features max_byte ver version with Exn e__ => Exn e__ | Ok _ =>
 Ok tt end)).
 
-Fixpoint gen_gpt_check_mbr_partitions_loop1 (fuel__ : nat) (i : Z) (n__ : Z) (mbr : bytes) (valid_partitions : list Z) (found_gpt : bool) {struct fuel__} : res (list Z * bool) :=
-  match fuel__ with O => Ok (valid_partitions, found_gpt) | S k__ =>
+Fixpoint gen_gpt_check_mbr_partitions_loop1 (fuel__ : nat) (i : Z) (n__ : Z) (mbr : bytes) (found_gpt : bool) (valid_partitions : list Z) {struct fuel__} : res (bool * list Z) :=
+  match fuel__ with O => Ok (found_gpt, valid_partitions) | S k__ =>
 let pte_start := ((Z.of_N GPT_MBR_PTE_START) + ((16) * i)) in
 let pte := (zslice (Some pte_start) (Some (pte_start + (16))) mbr) in
 match unpackZ C02sf_1 pte with Exn e__ => Exn e__ | Ok u__1 =>
@@ -82,20 +82,20 @@ if (negb ((starth =? (0)) && (starts =? (2)) && (startt =? (0)))) then (
 Exn SafetyViolation) else (
 if (negb (startlba =? (1))) then (
 Exn SafetyViolation) else (
-gen_gpt_check_mbr_partitions_loop1 k__ (i + 1) n__ mbr valid_partitions found_gpt))) else (
-gen_gpt_check_mbr_partitions_loop1 k__ (i + 1) n__ mbr valid_partitions found_gpt)) else (
+gen_gpt_check_mbr_partitions_loop1 k__ (i + 1) n__ mbr found_gpt valid_partitions))) else (
+gen_gpt_check_mbr_partitions_loop1 k__ (i + 1) n__ mbr found_gpt valid_partitions)) else (
 if (ostype =? (238)) then (
 let found_gpt := true in
 if (negb ((starth =? (0)) && (starts =? (2)) && (startt =? (0)))) then (
 Exn SafetyViolation) else (
 if (negb (startlba =? (1))) then (
 Exn SafetyViolation) else (
-gen_gpt_check_mbr_partitions_loop1 k__ (i + 1) n__ mbr valid_partitions found_gpt))) else (
-gen_gpt_check_mbr_partitions_loop1 k__ (i + 1) n__ mbr valid_partitions found_gpt))) end end.
+gen_gpt_check_mbr_partitions_loop1 k__ (i + 1) n__ mbr found_gpt valid_partitions))) else (
+gen_gpt_check_mbr_partitions_loop1 k__ (i + 1) n__ mbr found_gpt valid_partitions))) end end.
 Definition gen_gpt_check_mbr_partitions (mbr : bytes) : res unit :=
 let valid_partitions := (@nil Z) in
 let found_gpt := false in
-match gen_gpt_check_mbr_partitions_loop1 (Z.to_nat (4)) 0 (4) mbr valid_partitions found_gpt with Exn e__ => Exn e__ | Ok (valid_partitions, found_gpt) =>
+match gen_gpt_check_mbr_partitions_loop1 (Z.to_nat (4)) 0 (4) mbr found_gpt valid_partitions with Exn e__ => Exn e__ | Ok (found_gpt, valid_partitions) =>
 if (found_gpt && (negb (zlist_eqb valid_partitions [(0)]))) then (
 Exn SafetyViolation) else (
 if (negb (negb (is_nil valid_partitions))) then (
@@ -150,25 +150,25 @@ if ((negb (val =? (0))) || (negb (size =? (0))) || (negb (typ =? (Z.of_N VMDK_MA
 Exn SafetyViolation) else (
 Ok tt) end) end)))) end end.
 
-Fixpoint gen_vmdk_check_descriptor_loop1 (items__ : list bytes) (desc_text : option bytes) (vmdktype : bytes) (extent_access : list bytes) (ddb : list bytes) (header_fields : list bytes) (extents : list bytes) {struct items__} : res (list bytes * list bytes * list bytes) :=
-  match items__ with [] => Ok (ddb, header_fields, extents) | line :: l__ =>
+Fixpoint gen_vmdk_check_descriptor_loop1 (items__ : list bytes) (desc_text : option bytes) (extent_access : list bytes) (vmdktype : bytes) (ddb : list bytes) (extents : list bytes) (header_fields : list bytes) {struct items__} : res (list bytes * list bytes * list bytes) :=
+  match items__ with [] => Ok (ddb, extents, header_fields) | line :: l__ =>
 if ((prefixb ([35]%N : bytes) line) || (negb (negb (is_nil line)))) then (
-gen_vmdk_check_descriptor_loop1 l__ desc_text vmdktype extent_access ddb header_fields extents) else (
+gen_vmdk_check_descriptor_loop1 l__ desc_text extent_access vmdktype ddb extents header_fields) else (
 if (prefixb ([100;100;98]%N : bytes) line) then (
 let ddb := (ddb ++ [line]) in
-gen_vmdk_check_descriptor_loop1 l__ desc_text vmdktype extent_access ddb header_fields extents) else (
+gen_vmdk_check_descriptor_loop1 l__ desc_text extent_access vmdktype ddb extents header_fields) else (
 if ((memN 61%N line) && (negb (memN 32%N (first_field 61%N line)))) then (
 let header_fields := (header_fields ++ [line]) in
-gen_vmdk_check_descriptor_loop1 l__ desc_text vmdktype extent_access ddb header_fields extents) else (
+gen_vmdk_check_descriptor_loop1 l__ desc_text extent_access vmdktype ddb extents header_fields) else (
 if (mem_str (first_field 32%N line) extent_access) then (
 let extents := (extents ++ [line]) in
-gen_vmdk_check_descriptor_loop1 l__ desc_text vmdktype extent_access ddb header_fields extents) else (
+gen_vmdk_check_descriptor_loop1 l__ desc_text extent_access vmdktype ddb extents header_fields) else (
 Exn SafetyViolation)))) end.
-Fixpoint gen_vmdk_check_descriptor_loop2 (items__ : list bytes) (desc_text : option bytes) (vmdktype : bytes) (extent_access : list bytes) (header_fields : list bytes) (extents : list bytes) (ddb : list bytes) {struct items__} : res (unit) :=
+Fixpoint gen_vmdk_check_descriptor_loop2 (items__ : list bytes) (ddb : list bytes) (desc_text : option bytes) (extent_access : list bytes) (extents : list bytes) (header_fields : list bytes) (vmdktype : bytes) {struct items__} : res (unit) :=
   match items__ with [] => Ok tt | extent_line :: l__ =>
 if (memN 47%N extent_line) then (
 Exn SafetyViolation) else (
-gen_vmdk_check_descriptor_loop2 l__ desc_text vmdktype extent_access header_fields extents ddb) end.
+gen_vmdk_check_descriptor_loop2 l__ ddb desc_text extent_access extents header_fields vmdktype) end.
 Definition gen_vmdk_check_descriptor (desc_text : option bytes) (vmdktype : bytes) : res unit :=
 match desc_text with
 | None => Exn SafetyViolation
@@ -180,8 +180,8 @@ let extents := (@nil bytes) in
 let ddb := (@nil bytes) in
 if (negb (mem_str vmdktype [([109;111;110;111;108;105;116;104;105;99;115;112;97;114;115;101]%N : bytes); ([115;116;114;101;97;109;111;112;116;105;109;105;122;101;100]%N : bytes)])) then (
 Exn SafetyViolation) else (
-match gen_vmdk_check_descriptor_loop1 (map strip (split_char 10%N text__1)) desc_text vmdktype extent_access ddb header_fields extents with Exn e__ => Exn e__ | Ok (ddb, header_fields, extents) =>
-match gen_vmdk_check_descriptor_loop2 extents desc_text vmdktype extent_access header_fields extents ddb with Exn e__ => Exn e__ | Ok _ =>
+match gen_vmdk_check_descriptor_loop1 (map strip (split_char 10%N text__1)) desc_text extent_access vmdktype ddb extents header_fields with Exn e__ => Exn e__ | Ok (ddb, extents, header_fields) =>
+match gen_vmdk_check_descriptor_loop2 extents ddb desc_text extent_access extents header_fields vmdktype with Exn e__ => Exn e__ | Ok _ =>
 if (negb (negb (is_nil extents))) then (
 Exn SafetyViolation) else (
 Ok tt) end end) end.
